@@ -1172,6 +1172,13 @@ MUTANTS = [
     dict(name='c18-llocache-size-not-checked-for-wrap', prop='C18', clause='D1', edits=[(FE_CPP, """    if (allocationSize < size) // allocationSize is wrapped around after alignToBin
         return nullptr;
 """, """""")]),
+    dict(name='c18-seed3-calloc-heuristic-requires-both-factors-large', prop='C18', clause='D1', edits=[(FE_CPP,
+        "    if (nobj>=mult_not_overflow || size>=mult_not_overflow) // 1) heuristic check", "    if (nobj>=mult_not_overflow && size>=mult_not_overflow) // 1) heuristic check")]),
+    dict(name='c18-tbb-allocator-unchecked-product', prop='C18', clause='D1', edits=[('include/oneapi/tbb/tbb_allocator.h',
+        """        if (n > ~std::size_t(0) / sizeof(value_type)) {
+            throw_exception(exception_id::bad_alloc);
+        }
+""", """""")]),
     # ---------------------------------------------------------------- C19
     dict(name='c19-guard-after-fetch_sub', prop='C19', clause='D2', edits=[
         (CO_H, "                    collaborative_once_runner::lifetime_guard guard{*shared_runner};\n                    m_state.fetch_sub(1);",
